@@ -249,3 +249,35 @@ pub fn bucket_mut<'a, T>(b: &Bucket<T>, t: &'a mut RawTable<T>) -> (r: &'a mut T
     else { match t.leftovers { Some(ref mut lo) => hb_mut(&b.bucket, &mut lo.table), None => unreachable!() } }
 }
 } // verus!
+
+verus! {
+// ---- C09: what `retain(f)` / `drain_filter(f)` make of a table, slot by slot. `todo` is the set of slots the
+// traversal has not reached yet (the cursor's `remaining`): those are untouched; every other slot of the original was
+// shown to `f` with its original value, and is still there (with whatever `f` wrote) iff `f` answered `keep`.
+/// `f`, shown the element `o`, answered `ans` and left `n` as its value
+#[verifier::prophetic]
+pub open spec fn answered<K, V, F: FnMut(&K, &mut V) -> bool>(f: F, o: (K, V), n: V, ans: bool) -> bool {
+    exists|b: &mut V| *b == o.1 && *final(b) == n && #[trigger] f.ensures((&o.0, b), ans)
+}
+/// `f`, shown the element `o`, answered `ans` (the element is gone, so what `f` wrote does not matter)
+#[verifier::prophetic]
+pub open spec fn gone<K, V, F: FnMut(&K, &mut V) -> bool>(f: F, o: (K, V), ans: bool) -> bool {
+    exists|b: &mut V| *b == o.1 && #[trigger] f.ensures((&o.0, b), ans)
+}
+#[verifier::prophetic]
+pub open spec fn tv_filtered<K, V, F: FnMut(&K, &mut V) -> bool>(f: F, a: TV<(K, V)>, b: TV<(K, V)>, todo: Set<int>, keep: bool) -> bool {
+    &&& a.items.dom().subset_of(b.items.dom())
+    &&& forall|i: int| #[trigger] a.items.contains_key(i) ==> a.hashes[i] == b.hashes[i] && a.items[i].0 == b.items[i].0
+    &&& forall|i: int| todo.contains(i) ==> #[trigger] a.items.contains_key(i) && a.items[i] == b.items[i]
+    &&& forall|i: int| #[trigger] b.items.contains_key(i) && !todo.contains(i) ==>
+            if a.items.contains_key(i) { answered(f, b.items[i], a.items[i].1, keep) } else { gone(f, b.items[i], !keep) }
+}
+#[verifier::prophetic]
+pub open spec fn raw_filtered<K, V, F: FnMut(&K, &mut V) -> bool>(f: F, a: RawTable<(K, V)>, b: RawTable<(K, V)>, it: RawIter<(K, V)>, keep: bool) -> bool {
+    &&& tv_filtered(f, a.table@, b.table@, it.table@.remaining, keep)
+    &&& match b.leftovers {
+            Some(blo) => a.leftovers.is_some() && tv_filtered(f, a.leftovers->0.table@, blo.table@,
+                             (match it.leftovers { Some(li) => li@.remaining, None => Set::<int>::empty() }), keep),
+            None => a.leftovers.is_none() }
+}
+} // verus!
